@@ -179,6 +179,24 @@ def run(R, tier):
                 break
             except Exception:
                 pass
+    # ... also beyond d = 6, where the sign table is filled lazily: fresh algebras, then algebras that already multiplied
+    for d in (7, 8) + ((9,) if tier == 'thorough' else ()):
+        sigs = [[-1] + [1] * (d - 1), [1] * (d - 1) + [-1], [1] * d, [0] + [1] * (d - 1), [1] * (d - 1) + [0]]
+        for sa, sb in itertools.permutations(sigs, 2):
+            for warmed in (False, True):
+                A, B = Algebra(signature=sa), Algebra(signature=sb)
+                xa = A.multivector({1: 2, 1 << (d - 1): 3}); yb = B.multivector({1: 5, 1 << (d - 1): 7})
+                if warmed:
+                    xa * xa; yb * yb
+                R.count('clause=rejection-large'); R.case(('reject', d, tuple(sa), tuple(sb), warmed), True)
+                for sym, f in (('+', lambda a, b: a + b), ('-', lambda a, b: a - b), ('*', lambda a, b: a * b), ('|', lambda a, b: a | b)):
+                    try:
+                        r = f(xa, yb)
+                        viol('rejection', f'd={d}: element of Algebra(signature={sa}) {sym} element of Algebra(signature={sb}) returned {r} instead of raising'
+                             + (' (after both algebras had multiplied)' if warmed else ' (fresh algebras)'), left=str(sa), right=str(sb), op=sym)
+                        break
+                    except Exception:
+                        pass
 
 
 REPLAY_BY_RERUN = True      # inputs derive from the seed recorded in the replay file: the recorded run is regenerated
